@@ -51,6 +51,7 @@ fn main() {
         "C20" => props::c20::run(&a),
         "C18" => props::c18::run(&a),
         "C15" => props::c15::run(&a),
+        "C10" => props::c10::run(&a),
         _ => { eprintln!("unknown property {}", prop); std::process::exit(2); }
     }
 }
